@@ -142,6 +142,18 @@ func genC04(r *kit.RNG) *C04Scenario {
 		sc.Ops = append(sc.Ops, C04Op{GapMs: 1000, Name: 15, DO: do}, C04Op{GapMs: L * 800, Name: 22, DO: do},
 			C04Op{GapMs: L*200 + kit.Pick(r, []int{3500, 4500}), Name: 22, DO: do}, C04Op{GapMs: 1500, Name: 22, DO: r.Chance(0.5)})
 	}
+	if len(sc.Ops) == 0 && r.Chance(0.15) {
+		// alias-to-no-data recipe: an alias with a long TTL whose target lacks the asked type, in
+		// a zone whose SOA minimum is far below the SOA's own TTL. The reply is a success by
+		// rcode, its "no data" half lives for the negative TTL only: asked again after that, the
+		// composition must not still come from the cache with the old SOA.
+		sc.SOATTL, sc.SOAMin, sc.AliasTTL, sc.NSTTL, sc.SigLifeS, sc.SlowMs = 3600, kit.Pick(r, []uint32{10, 20, 30}), 3600, 86400, 86400*30, 0
+		do := r.Chance(0.5)
+		nm := kit.Pick(r, []int{12, 13, 14})
+		ty := kit.Pick(r, []uint16{dns.TypeTXT, dns.TypeAAAA, dns.TypeMX})
+		sc.Ops = append(sc.Ops, C04Op{GapMs: 1000, Name: nm, Type: ty, DO: do}, C04Op{GapMs: 4000, Name: nm, Type: ty, DO: do},
+			C04Op{GapMs: int(sc.SOAMin)*1000 + kit.Pick(r, []int{0, 3000}), Name: nm, Type: ty, DO: do}, C04Op{GapMs: 5000, Name: nm, Type: ty, DO: r.Chance(0.5)})
+	}
 	pool := []int{r.Intn(c04NameCount), r.Intn(c04NameCount), r.Intn(c04NameCount)}
 	gaps := []int{200, 900, 1000, 2000, 4000, 4900, 5100, 6000, 11000, 29000, 31000, 61000, 299000, 301000, 3600000, 86390000, 86410000, 108000000}
 	n := r.Range(10, 60)
